@@ -79,11 +79,19 @@ func (ka *kindAnalysis) nonTypedef() kindSet {
 
 // kstate: kinds of the spec value and of its root.
 type kstate struct {
-	spec kindSet // possible kinds of the subject value
-	root kindSet // possible kinds of RootTypeSpec(subject)
+	spec  kindSet // possible kinds of the subject value
+	root  kindSet // possible kinds of RootTypeSpec(subject)
+	bools map[ssa.Value]bool // truth of bool parameters decided on this path
+	pred  *ssa.BasicBlock    // block from which the current block was entered
 }
 
-func (s kstate) clone() kstate { return kstate{s.spec.clone(), s.root.clone()} }
+func (s kstate) clone() kstate {
+	b := map[ssa.Value]bool{}
+	for k, v := range s.bools {
+		b[k] = v
+	}
+	return kstate{s.spec.clone(), s.root.clone(), b, s.pred}
+}
 
 func (s *kstate) normalize() {
 	// spec non-typedef kinds must be within root; root must be reachable from spec
@@ -192,7 +200,7 @@ func (ka *kindAnalysis) predicateTable(f *ssa.Function) map[string][2]bool {
 	tab := map[string][2]bool{}
 	for _, rk := range ka.nonTypedef().names() {
 		// subject may be rk itself or a typedef with root rk
-		st := kstate{spec: kindSet{rk: true, "TypedefSpec": true}, root: kindSet{rk: true}}
+		st := kstate{spec: kindSet{rk: true, "TypedefSpec": true}, root: kindSet{rk: true}, bools: map[ssa.Value]bool{}}
 		var res [2]bool
 		ka.explore(f, subj, st, func(in ssa.Instruction, s kstate) {
 			if r, ok := in.(*ssa.Return); ok && len(r.Results) == 1 {
@@ -278,6 +286,7 @@ func (ka *kindAnalysis) explore(f *ssa.Function, subj ssa.Value, init kstate, vi
 		onPath[fr.b] = true
 		defer delete(onPath, fr.b)
 		st := fr.st
+		st.pred = fr.pred
 		for _, in := range fr.b.Instrs {
 			visit(in, st)
 		}
@@ -303,6 +312,15 @@ func (ka *kindAnalysis) explore(f *ssa.Function, subj ssa.Value, init kstate, vi
 // which the current block was entered (to resolve phis).
 func (ka *kindAnalysis) refine(f *ssa.Function, subj ssa.Value, cur, pred *ssa.BasicBlock, cond ssa.Value, truth bool, st kstate) (kstate, bool) {
 	switch x := cond.(type) {
+	case *ssa.Parameter:
+		if prev, known := st.bools[x]; known {
+			return st, prev == truth
+		}
+		if st.bools == nil {
+			st.bools = map[ssa.Value]bool{}
+		}
+		st.bools[x] = truth
+		return st, true
 	case *ssa.UnOp:
 		if x.Op == token.NOT {
 			return ka.refine(f, subj, cur, pred, x.X, !truth, st)
@@ -425,7 +443,7 @@ func (ka *kindAnalysis) KindsReaching(f *ssa.Function, target ssa.Instruction, i
 	if init == nil {
 		init = ka.all()
 	}
-	st := kstate{spec: init.clone(), root: ka.nonTypedef()}
+	st := kstate{spec: init.clone(), root: ka.nonTypedef(), bools: map[ssa.Value]bool{}}
 	out := kindSet{}
 	ka.explore(f, subj, st, func(in ssa.Instruction, s kstate) {
 		if in == target {
@@ -441,4 +459,21 @@ func (ka *kindAnalysis) KindsReaching(f *ssa.Function, target ssa.Instruction, i
 		}
 	})
 	return out, true
+}
+
+// ExploreKinds runs the path exploration of f for a subject restricted to
+// (kind, rootKind) and calls visit with the path state at every instruction.
+func (ka *kindAnalysis) ExploreKinds(f *ssa.Function, kind, rootKind string, visit func(ssa.Instruction, kstate)) bool {
+	var subj *ssa.Parameter
+	for _, p := range f.Params {
+		if types.Identical(p.Type(), ka.tsType) {
+			subj = p
+		}
+	}
+	if subj == nil {
+		return false
+	}
+	st := kstate{spec: kindSet{kind: true}, root: kindSet{rootKind: true}, bools: map[ssa.Value]bool{}}
+	ka.explore(f, subj, st, visit)
+	return true
 }
